@@ -139,6 +139,28 @@ def build_corpus(quick):
     add('same-key-int-float-bool', [{1: 'a'}, {1.0: 'a'}, {True: 'a'}])
     add('same-key-float-first', [{1.0: 'a'}, {1: 'a'}])
     add('same-key-tuple-variants', [{(1, 2): 0}, {c08.FAMILY[tuple][0]((1, 2)): 0}, {(1.0, 2): 0}])
+    # systematic "confusable" families: equal (==, hash) or same-content values of different types, in every position
+    L0, T0, D0 = c08.FAMILY[list][0], c08.FAMILY[tuple][0], c08.FAMILY[dict][0]
+    I0, F0 = c08.FAMILY[int][0], c08.FAMILY[float][0]
+    contents = {
+        'one': [1, 1.0, True, I0(1), F0(1.0)],
+        'zero': [0, 0.0, -0.0, False, I0(0)],
+        'id': ['id', b'id', SS('id'), BS(b'id')],
+        'pair': [(1, 2), [1, 2], T0((1, 2)), L0([1, 2]), (1.0, 2), frozenset([1, 2]), {1, 2}],
+        'text': ['alpha beta/gamma delta ' * 4, ('alpha beta/gamma delta ' * 4).encode(), SS('alpha beta/gamma delta ' * 4), pathlib.PurePosixPath('alpha beta/gamma delta ' * 4)],
+        'map': [{'a': 1}, D0({'a': 1}), collections.OrderedDict(a=1), types.MappingProxyType({'a': 1}), collections.Counter(a=1), collections.defaultdict(None, a=1), types.SimpleNamespace(a=1)],
+    }
+    for fam, variants in contents.items():
+        for vi, v in enumerate(variants):
+            add('confusable-%s-%d-bare' % (fam, vi), v)
+            add('confusable-%s-%d-in-list' % (fam, vi), [v, 'sibling'])
+            add('confusable-%s-%d-as-dict-value' % (fam, vi), {'k': v})
+            try:
+                hash(v)
+                add('confusable-%s-%d-as-dict-key' % (fam, vi), {v: 'value'})
+                add('confusable-%s-%d-in-set' % (fam, vi), {v})
+            except TypeError:
+                pass
     add('same-items-list', [1, 2, 3, 'x'])
     add('same-items-tuple', (1, 2, 3, 'x'))
     add('same-items-set', {1, 2, 3, 'x'})
@@ -300,8 +322,8 @@ def run_shard(sh):
         list(reversed(names)),
         names + names,
     ]
-    H = 30 if quick else 600
-    plen = 120 if quick else 500
+    H = 48 if quick else 600
+    plen = 300 if quick else 800
     jobs = []
     for a in adversarial:
         jobs.append(('adversarial', [idx_of[x] for x in a]))
